@@ -188,6 +188,7 @@ class Server:
         self.last_block_report = None
         self.on_client_write = None
         self.on_notify_call = None
+        self.mempool_error = None
         self.max_latency = max_latency
         self.log = LogCapture()
         self.clients = []
@@ -255,7 +256,23 @@ class Server:
 
         controller_mod.Daemon = daemon_factory
         controller_mod.DB = recording(REAL['DB'], 'db')
-        controller_mod.MemPool = recording(REAL['MemPool'], 'mempool')
+        class MP(REAL['MemPool']):
+            def __init__(self, *a, **k):
+                server.created['mempool'] = self
+                super().__init__(*a, **k)
+
+            async def keep_synchronized(self, synchronized_event):
+                # an exception escaping the refresh loop is otherwise masked: the block processor
+                # ignores the resulting cancellation and the server limps on without a mempool
+                try:
+                    await super().keep_synchronized(synchronized_event)
+                except asyncio.CancelledError:
+                    raise
+                except BaseException as e:
+                    server.mempool_error = e
+                    raise
+        MP.__name__ = 'MemPool'
+        controller_mod.MemPool = MP
         class SM(REAL['SessionManager']):
             def __init__(self, *a, **k):
                 server.created['session_mgr'] = self
@@ -321,6 +338,9 @@ class Server:
             await asyncio.sleep(0.5)
 
     def check_alive(self):
+        if self.mempool_error is not None:
+            raise ServerDied(f'mempool keep_synchronized raised {self.mempool_error!r}',
+                             self.mempool_error)
         if self.task.done():
             exc = None if self.task.cancelled() else self.task.exception()
             raise ServerDied(repr(exc), exc)
